@@ -44,6 +44,21 @@ Theorem C03_drain_delivers_plain :
 Proof. exact drain_delivers_plain. Qed.
 Print Assumptions C03_drain_delivers_plain.
 
+(* Queues that hold CONTAINERS as well (Proxy.notify re-queues the batch of a proxied client whole on
+   the parent Session; writeUnpack splices such a batch into the next transmission, whichever of
+   FlagMulti / FlagMultiDevice it carries): the delivered sequence is the flattening of the queue.
+   item_ok: an ordinary queueable packet (own, or for a registered device) or a container that counts
+   the packets it holds, all of them ordinary packets with a device (an own container holds own
+   packets; the packets of a foreign one are ours or for registered devices).  The count bound is
+   fragMax: the 16-bit packet count of a container. *)
+Theorem C03_drain_delivers_containers :
+  forall c reg last q,
+    wf_conf c -> Forall (fun p => item_ok reg (c_own c) p = true) q -> len (flatten q) <= FRAG_MAX ->
+    map untag_d (deliveries (drain c reg (mkS q None last))) =
+    flat_map (direct (c_own c)) (flatten (abandon (c_own c) last q)).
+Proof. exact drain_delivers_items. Qed.
+Print Assumptions C03_drain_delivers_containers.
+
 (* a non-keep-alive ordinary packet on its own is handed over unchanged *)
 Theorem C03_direct_plain_is_identity :
   forall i p, i <> 0 -> queueable p = true -> plain p = true -> is_nop p = false ->
@@ -188,6 +203,13 @@ Theorem C03_proxy_drain_delivers_queue :
 Proof. exact pc_drain_delivers_queue. Qed.
 Print Assumptions C03_proxy_drain_delivers_queue.
 
+Theorem C03_proxy_drain_delivers_containers :
+  forall c extra q,
+    wf_conf c -> Forall (fun p => item_ok noreg (c_own c) p = true) q -> len (flatten q) <= FRAG_MAX ->
+    map untag_d (deliveries (pc_drain c extra (mkS q None 0))) = flat_map (direct (c_own c)) (flatten q).
+Proof. exact pc_drain_delivers_items. Qed.
+Print Assumptions C03_proxy_drain_delivers_containers.
+
 Theorem C03_proxy_drain_delivers_plain :
   forall c extra q,
     wf_conf c ->
@@ -281,4 +303,18 @@ Proof.
   split; [repeat (constructor; [vm_compute; split; [reflexivity|auto]|]); constructor|].
   split; [repeat (constructor; [vm_compute; reflexivity|]); constructor|].
   split; vm_compute; reflexivity.
+Qed.
+
+(* a proxying Session: its own packet, then the batch of client 2 re-queued whole (FlagMulti |
+   FlagProxy | FlagFrag, count 2 = flag word 562949953421319); device 2 is registered.  One
+   multi-device transmission delivers A to session 1 and X1, X2 to session 2, in order. *)
+Example C03_containers_nonvacuous :
+  let q := [ pk 8 11 1 0 [] 1 31; pkc 0 0 2 562949953421319 [] 97 [ pk 8 21 2 0 [] 2 32; pk 8 22 2 0 [] 2 33 ] ] in
+  Forall (fun p => item_ok ex_reg (c_own ex_conf) p = true) q /\ len (flatten q) <= FRAG_MAX /\
+  map (fun s => len (tx_packets (st_tx s))) (drain ex_conf ex_reg (mkS q None 0)) = [3] /\
+  map untag_d (deliveries (drain ex_conf ex_reg (mkS q None 0))) =
+    [ dl 1 8 11 1 0 [] 1 31; dl 2 8 21 2 0 [] 2 32; dl 2 8 22 2 0 [] 2 33 ].
+Proof.
+  cbv zeta. split; [repeat (constructor; [vm_compute; reflexivity|]); constructor|].
+  split; [vm_compute; discriminate|]. split; vm_compute; reflexivity.
 Qed.
